@@ -327,7 +327,7 @@ def capind_C01(v, sc, binary):
 
 
 def check_C01(tier):
-    return v2_property("C01", tier, cfgs_basic(tier), "stall", free=True, v1kinds=("dyn", "grace", "stop"), v1models=models_v1_basic, simple=True, extra=capind_C01, v2rand=True,
+    return v2_property("C01", tier, cfgs_basic(tier), "stall", free=True, v1kinds=("dyn", "stop"), v1models=models_v1_basic, simple=True, extra=capind_C01, v2rand=True,
                        nontrivial=lambda t: t["Q"] is not None and t["Q"] == t["reset"]["H"],
                        rule="transition-cover paths of the TLC state graph of each bounded PrioV2 configuration (real divider table), replayed "
                             "gated into the real v2 scheduler, then the stall continuation (inputs kept full, everything received, nothing "
@@ -382,7 +382,7 @@ def check_C06(tier):
     cfgs = cfgs_basic(tier) + [mk("p2skew", [10, 1], 11, "rate", 1, 1)]
     if tier == "quick":
         cfgs = [cfgs[0], cfgs[2], cfgs[3]]
-    return v2_property("C06", tier, cfgs, "alone", free=True, v1kinds=("alone", "grace"),
+    return v2_property("C06", tier, cfgs, "alone", free=True, v1kinds=("alone",),
                        nontrivial=lambda t: t.get("QA") is not None,
                        rule="TLC liveness (every written item eventually received, termination) under fairness, in bounded PrioV2 configs incl. an unbuffered "
                             "input and skewed priorities; real code: every cover path is replayed gated, then the continuation releases and drains everything "
